@@ -5,9 +5,9 @@ import (
 	"bufio"
 	"context"
 	"errors"
-	"io"
 	"fmt"
 	"go/ast"
+	"io"
 	"os"
 	"os/exec"
 	"strconv"
@@ -152,9 +152,12 @@ type badStringer struct{ m map[string]*int }
 
 func (b badStringer) String() string { return fmt.Sprint(*b.m["missing"]) }
 
+// ptrStringer: a non-nil pointer whose String() method panics with a value of its own. (A nil pointer
+// with a panicking method prints as "<nil>" under %v — that text class is already covered by
+// baderror, and two kinds with one text could not be told apart in Wait()'s message.)
 type ptrStringer struct{ x int }
 
-func (p *ptrStringer) String() string { return fmt.Sprint(p.x) }
+func (p *ptrStringer) String() string { panic("ptr-stringer-panic") }
 
 func panicValue(kind string) any {
 	switch kind {
@@ -179,8 +182,7 @@ func panicValue(kind string) any {
 	case "eof":
 		return io.EOF
 	case "badptrstringer":
-		var p *ptrStringer
-		return p
+		return &ptrStringer{x: 3}
 	}
 	return nil
 }
@@ -366,39 +368,55 @@ func child() {
 	sc := bufio.NewScanner(os.Stdin)
 	sc.Buffer(make([]byte, 1<<20), 1<<20)
 	w := bufio.NewWriter(os.Stdout)
+	sawPanic := false
 	for sc.Scan() {
 		line := sc.Text()
 		i := strings.Index(line, "\t")
 		id, spec := line[:i], line[i+1:]
 		fns, _ := parseGroup(tokenize(spec), 0)
+		sawPanic = sawPanic || hasPanic(fns)
 		err := runGroup(fns)
-		class := classify(err, fns)
-		if hasPanic(fns) && !strings.HasPrefix(class, "recovered:") {
-			// A panic that was not converted into the group's error: if it was not recovered at all
-			// the runtime is about to kill this process (deferred calls — including errgroup's
-			// done() that released Wait — run before the fatal exit). Give it time to die so the
-			// crash is attributed to this case and not to a later one.
-			time.Sleep(400 * time.Millisecond)
-		}
-		fmt.Fprintf(w, "%s\t%s\n", id, class)
+		fmt.Fprintf(w, "%s\t%s\n", id, classify(err, fns))
 		w.Flush()
+	}
+	if sawPanic {
+		// A panic that was not recovered kills the process only after the panicking goroutine's
+		// deferred calls ran — including errgroup's done(), which releases Wait(). Stay alive long
+		// enough for the runtime to do so, so that a crash caused by the last cases is not lost by
+		// exiting normally first. (runBatch re-runs the cases around a crash one per process to
+		// attribute it.)
+		time.Sleep(400 * time.Millisecond)
 	}
 }
 
-// runBatch feeds specs to child processes; a child that dies marks the case it was on as crash.
+func runChild(specs []string, from, to int) string {
+	cmd := exec.Command(os.Args[0], "child")
+	var in strings.Builder
+	for i := from; i < to; i++ {
+		fmt.Fprintf(&in, "%d\t%s\n", i, specs[i])
+	}
+	cmd.Stdin = strings.NewReader(in.String())
+	outb, _ := cmd.Output() // a crash leaves partial output and a non-zero exit status
+	if cmd.ProcessState == nil || !cmd.ProcessState.Success() {
+		return string(outb) + "\nCRASHED\n"
+	}
+	return string(outb)
+}
+
+// crashWindow: how many cases before the one a dying child was working on are re-run alone.
+const crashWindow = 16
+
+// runBatch feeds specs to child processes. When a child dies, the case it was on and the few
+// before it (whose unrecovered panic may have taken a moment to bring the process down) are re-run
+// one per process; every case that kills its own process is a crash, and if none does the crash is
+// still recorded against the case the child was on.
 func runBatch(specs []string) []string {
 	res := make([]string, len(specs))
 	start := 0
 	for start < len(specs) {
-		cmd := exec.Command(os.Args[0], "child")
-		var in strings.Builder
-		for i := start; i < len(specs); i++ {
-			fmt.Fprintf(&in, "%d\t%s\n", i, specs[i])
-		}
-		cmd.Stdin = strings.NewReader(in.String())
-		outb, _ := cmd.Output() // a crash leaves partial output
+		out := runChild(specs, start, len(specs))
 		done := start
-		for _, l := range strings.Split(string(outb), "\n") {
+		for _, l := range strings.Split(out, "\n") {
 			parts := strings.SplitN(l, "\t", 2)
 			if len(parts) != 2 {
 				continue
@@ -410,11 +428,28 @@ func runBatch(specs []string) []string {
 			res[idx] = parts[1]
 			done++
 		}
-		if done < len(specs) {
-			res[done] = "crash"
-			done++
+		if !strings.HasSuffix(out, "\nCRASHED\n") && done == len(specs) {
+			break
 		}
-		start = done
+		if done == len(specs) {
+			done-- // died after answering every case: the culprit is among the last ones
+		}
+		attributed := false
+		for k := max(start, done-crashWindow); k <= done; k++ {
+			one := runChild(specs, k, k+1)
+			if strings.HasSuffix(one, "\nCRASHED\n") {
+				res[k] = "crash"
+				attributed = true
+			} else if k == done {
+				if parts := strings.SplitN(strings.TrimSpace(one), "\t", 2); len(parts) == 2 {
+					res[k] = parts[1]
+				}
+			}
+		}
+		if !attributed {
+			res[done] = "crash"
+		}
+		start = done + 1
 	}
 	return res
 }
@@ -457,12 +492,40 @@ func run(a hx.RunArgs) error {
 	out := hx.NewOut(a.OutDir)
 	defer out.Close()
 	out.Rule = "groups of 1-5 functions run through the real errguard.Go + errgroup.Wait in child processes (a process crash is an observation): " +
-		"each function returns nil / one of 4 error values / panics with one of 9 value kinds (nil, error, string, int, struct, runtime errors, Stringer, typed-nil error) / runs a nested guarded group; " +
+		fmt.Sprintf("each function returns nil / one of %d error values (plain, wrapped, joined, sentinel, pointer and typed-nil errors) / panics with one of %d value kinds (nil, error, string, int, struct, runtime errors, Stringer, typed-nil error, values whose Error/String method itself panics) / runs a nested guarded group; ", len(errVals), len(panicKinds)) +
 		"unstaggered groups have at most one failing function (order-independent result); ordered groups force which failing function completes first (the others wait on the group's context); non-trivial = some function fails"
+	// self-check of the harness: Wait()'s message must identify the panic kind, so the texts of the
+	// kinds must be pairwise distinct (classify matches "<text>\n" at the start of the message).
+	for i, k1 := range panicKinds {
+		for _, k2 := range panicKinds[:i] {
+			if expectedPanicText(k1) == expectedPanicText(k2) {
+				return fmt.Errorf("harness defect: panic kinds %s and %s have the same %%v text %q", k1, k2, expectedPanicText(k1))
+			}
+		}
+	}
 	r := hx.NewRand(a.Seed)
 	var specs []string
 	var groups [][]fnSpec
+	var bad error
+	var wellFormed func(fns []fnSpec) bool
+	wellFormed = func(fns []fnSpec) bool {
+		for _, f := range fns {
+			switch f.kind {
+			case "n", "e", "p":
+			case "N":
+				if !wellFormed(f.nested) {
+					return false
+				}
+			default:
+				return false
+			}
+		}
+		return len(fns) > 0
+	}
 	add := func(fns []fnSpec) {
+		if !wellFormed(fns) && bad == nil {
+			bad = fmt.Errorf("harness defect: generated a malformed group %+v", fns)
+		}
 		parts := make([]string, len(fns))
 		for i, f := range fns {
 			parts[i] = f.String()
@@ -515,6 +578,7 @@ func run(a hx.RunArgs) error {
 		fns := make([]fnSpec, cnt)
 		for j := range fns {
 			if j == first {
+				fns[j] = fnSpec{kind: "n"}
 				for !failing(fns[j]) {
 					fns[j] = genFn(r, 0)
 				}
@@ -527,6 +591,9 @@ func run(a hx.RunArgs) error {
 			}
 		}
 		add(fns)
+	}
+	if bad != nil {
+		return bad
 	}
 	res := runBatch(specs)
 	for i, spec := range specs {
